@@ -18,6 +18,7 @@ pub struct Pki {
     pub wrongname: (Vec<u8>, Vec<u8>), // trusted, SAN other.example only
     pub wrongname_host: (Vec<u8>, Vec<u8>), // trusted; names other.example and the loopback ADDRESSES - wrong for the host name `localhost`
     pub wrongname_ip: (Vec<u8>, Vec<u8>),   // trusted; the NAME localhost and a foreign address - wrong for an address literal
+    pub wrongname_ca2: (Vec<u8>, Vec<u8>),  // a certificate for other.example issued by a second trusted CA whose own name is `localhost`
     pub untrusted: (Vec<u8>, Vec<u8>), // self-signed, right names
     pub weak: (Vec<u8>, Vec<u8>),      // trusted, right names, 1024-bit RSA key: parses as an identity, but no acceptor can be built from it
 }
@@ -85,10 +86,13 @@ pub fn make_pki() -> Pki {
     let (w, wk) = make_cert("other.example", &["other.example"], &["192.0.2.7"], Some((&ca, &cak)), false);
     let (wh, whk) = make_cert("other.example", &["other.example"], &["127.0.0.1", "::1"], Some((&ca, &cak)), false);
     let (wi, wik) = make_cert("other.example", &["localhost", "other.example"], &["192.0.2.7"], Some((&ca, &cak)), false);
+    // (who issued a certificate says nothing about whom it is for)
+    let (ca2, ca2k) = make_cert("localhost", &[], &[], None, true);
+    let (w2, w2k) = make_cert("other.example", &["other.example"], &["192.0.2.7"], Some((&ca2, &ca2k)), false);
     let (u, uk) = make_cert("localhost", &["localhost"], &["127.0.0.1", "::1"], None, false);
     let pem = |c: &openssl::x509::X509, k: &openssl::pkey::PKey<openssl::pkey::Private>| (c.to_pem().unwrap(), k.private_key_to_pem_pkcs8().unwrap());
     let (k, kk) = make_cert_with("localhost", &["localhost"], &["127.0.0.1", "::1"], Some((&ca, &cak)), false, Some(1024));
-    Pki { ca_pem: ca.to_pem().unwrap(), good: pem(&g, &gk), wrongname: pem(&w, &wk), wrongname_host: pem(&wh, &whk), wrongname_ip: pem(&wi, &wik), untrusted: pem(&u, &uk), weak: pem(&k, &kk) }
+    Pki { ca_pem: [ca.to_pem().unwrap(), ca2.to_pem().unwrap()].concat(), wrongname_ca2: pem(&w2, &w2k), good: pem(&g, &gk), wrongname: pem(&w, &wk), wrongname_host: pem(&wh, &whk), wrongname_ip: pem(&wi, &wik), untrusted: pem(&u, &uk), weak: pem(&k, &kk) }
 }
 
 fn identity(p: &(Vec<u8>, Vec<u8>)) -> native_tls::Identity {
@@ -436,6 +440,30 @@ pub async fn listener_scenario(pki: Arc<Pki>, dict: Arc<Dictionary>, spec: Vec<S
 
 /// forwards both ways and records everything the client put on the socket
 async fn relay(target: std::net::SocketAddr, kind: &str) -> Option<(std::net::SocketAddr, Arc<Mutex<Vec<u8>>>)> {
+    relay_on(target, kind, 0).await
+}
+
+/// `port` 0: any free port; otherwise that very port (well-known numbers: what a client does must not depend on them),
+/// waiting up to 40 s for it to become free
+async fn relay_on(target: std::net::SocketAddr, kind: &str, port: u16) -> Option<(std::net::SocketAddr, Arc<Mutex<Vec<u8>>>)> {
+    if port != 0 {
+        let host = match kind {
+            "ip6" => "[::1]",
+            "host" => "[::]",
+            _ => "127.0.0.1",
+        };
+        for _ in 0..80 {
+            if let Ok(l) = TcpListener::bind(format!("{}:{}", host, port)).await {
+                return relay_with(l, target).await;
+            }
+            tokio::time::sleep(Duration::from_millis(500)).await;
+        }
+        return None;
+    }
+    relay_any(target, kind).await
+}
+
+async fn relay_any(target: std::net::SocketAddr, kind: &str) -> Option<(std::net::SocketAddr, Arc<Mutex<Vec<u8>>>)> {
     // "localhost" resolves to ::1 and 127.0.0.1: the relay for a host-name address listens on both families (one
     // dual-stack wildcard socket), otherwise the ::1 attempt could reach another scenario's listener that happens to
     // own the same port number in the other family
@@ -446,6 +474,10 @@ async fn relay(target: std::net::SocketAddr, kind: &str) -> Option<(std::net::So
     })
     .await
     .ok()?;
+    relay_with(l, target).await
+}
+
+async fn relay_with(l: TcpListener, target: std::net::SocketAddr) -> Option<(std::net::SocketAddr, Arc<Mutex<Vec<u8>>>)> {
     let addr = l.local_addr().ok()?;
     let cap: Arc<Mutex<Vec<u8>>> = Default::default();
     let cap2 = cap.clone();
@@ -521,6 +553,7 @@ pub async fn tls_cell(pki: Arc<Pki>, dict: Arc<Dictionary>, spec: Vec<String>) -
             // address; the right ADDRESSES where a host name was asked for; the right NAME where an address was
             "wrongname" => match (kv.get("wn").and_then(|x| x.parse::<usize>().ok()).unwrap_or(0), addr_kind.as_str()) {
                 (0, _) => &pki.wrongname,
+                (2, _) => &pki.wrongname_ca2,
                 (_, "host") => &pki.wrongname_host,
                 _ => &pki.wrongname_ip,
             },
@@ -539,9 +572,10 @@ pub async fn tls_cell(pki: Arc<Pki>, dict: Arc<Dictionary>, spec: Vec<String>) -
     {
         let seen: Arc<Mutex<Vec<String>>> = Default::default();
         let saddr = start_server(id, dict.clone(), seen.clone()).await;
-        let (raddr, cap) = match relay(saddr, &addr_kind).await {
+        let port: u16 = kv.get("port").and_then(|x| x.parse().ok()).unwrap_or(0);
+        let (raddr, cap) = match relay_on(saddr, &addr_kind, port).await {
             Some(x) => x,
-            None => return "skipped no-ipv6-loopback".to_string(),
+            None => return if port != 0 { "skipped port-in-use".to_string() } else { "skipped no-ipv6-loopback".to_string() },
         };
         let address = match addr_kind.as_str() {
             "ip" => format!("127.0.0.1:{}", raddr.port()),
